@@ -16,7 +16,8 @@ import pybads.function_logger.constraints_check as ccmod
 
 
 class HCC(Harness):
-    """params: N, D, M, proj, cons (None|'bool'|'real'), k (tol_mesh = 2**k), inf (tuple of coords with infinite box)"""
+    """params: N, D, M, proj, cons (None|'bool'|'real'), k (tol_mesh = 2**k), inf (coords with infinite box), inf_keep_lo / inf_keep_hi
+    (coords of `inf` whose lower / upper bound stays finite: half-bounded coordinates)"""
     name = "H-CC"
     functions = (ccmod.contraints_check,)
     stubs_doc = ("non_box_cons: one fresh symbolic answer (Bool, or real compared with 0) per queried row",
@@ -44,8 +45,10 @@ class HCC(Harness):
             lb = lb.astype(object) if eng.concrete else lb
             ub = ub.astype(object) if eng.concrete else ub
             for d in infc:
-                lb[0, d] = -math.inf
-                ub[0, d] = math.inf
+                if d not in p.get("inf_keep_lo", ()):
+                    lb[0, d] = -math.inf
+                if d not in p.get("inf_keep_hi", ()):
+                    ub[0, d] = math.inf
             if eng.concrete:
                 lb = lb.astype(float)
                 ub = ub.astype(float)
